@@ -46,6 +46,9 @@ def raw(spec):
     if t in ("int", "str", "float"):
         return spec["v"]
     if t == "bad":
+        if spec.get("how") == "undef":
+            from traits.api import Undefined
+            return Undefined      # the "no value" singleton is no valid element either
         return None
     if t == "list":
         return [raw(s) for s in spec["vs"]]
@@ -62,6 +65,10 @@ def mval(spec, vkind):
     ModelTraitError)."""
     if callable(vkind):
         return vkind(spec)
+    if vkind == "once":
+        # a validator that is not idempotent: what is stored must never be
+        # validated a second time
+        return mval(spec, "coerce") + ONCE
     t = spec["t"]
     if t == "int":
         return spec["v"]
@@ -76,15 +83,22 @@ def mval(spec, vkind):
     raise AssertionError(spec)
 
 
+ONCE = 100000
+
+
 class Coerce:
     """Picklable harness validator: ints pass, digit strings become ints,
     everything else is a TraitError.  With a site name it is a callback point
     of the simulator."""
 
-    def __init__(self, site=None):
+    def __init__(self, site=None, bump=0):
         self.site = site
+        self.bump = bump
 
     def __call__(self, item):
+        return self._check(item) + self.bump
+
+    def _check(self, item):
         if self.site is not None:
             env = CUR["env"]
             if env is not None:
@@ -99,7 +113,7 @@ class Coerce:
         raise TraitError("bad item %r" % (item,))
 
     def __eq__(self, other):
-        return type(other) is Coerce and other.site == self.site
+        return type(other) is Coerce and other.site == self.site and other.bump == self.bump
 
     def __hash__(self):
         return 77 if self.site is None else 78
@@ -108,6 +122,8 @@ class Coerce:
 def make_validator(vkind, site):
     if vkind == "none":
         return None
+    if vkind == "once":
+        return Coerce(None, ONCE)
     return Coerce(site if vkind == "point" else None)
 
 
